@@ -65,3 +65,25 @@ Definition c01_fixed_lib_incl_statement : Prop :=
     oracle_run cfg (fk_run (nofail cfg) (fs_init m) h) (fk_run cfg (fs_init m) h) /\
     results_ok_or_last_err (fk_run cfg (fs_init m) h) /\
     (c_fail_at cfg = None -> length (fk_run cfg (fs_init m) h) = length h).
+
+(* ---- goal 3: LIB discovery with holdBlocksUntilLIB (mode LNone, c_hold = true) ----
+   class: every block sits at or above one height n0 and declares n0 as its LIB; a block at the first
+   streamable height has height n0 (otherwise SetLIB would make it the LIB at a height other than the
+   declared one); no empty parent id.  Any tree above n0, several blocks of height n0, any arrival order
+   (blocks that arrive before the first block of height n0 are held), duplicates, unlinkable blocks. *)
+Definition disc_block_b (n0 first : N) (b : block) : bool :=
+  negb (bparent b =? 0) && (blib b =? n0) && (n0 <=? bnum b) &&
+  (if bnum b =? first then bnum b =? n0 else true).
+
+Definition c01_disc_scope_b (n0 first : N) (h : list block) : bool :=
+  wf_b h && forallb (disc_block_b n0 first) h.
+
+Definition c01_fixed_lib_disc_statement : Prop :=
+  forall cfg n0 h,
+    c_hold cfg = true ->
+    f_new (c_filter cfg) = true -> f_undo (c_filter cfg) = true ->
+    c01_disc_scope_b n0 (c_first cfg) h = true ->
+    c01_statement cfg LNone h /\
+    oracle_run cfg (fk_run (nofail cfg) (fs_init LNone) h) (fk_run cfg (fs_init LNone) h) /\
+    results_ok_or_last_err (fk_run cfg (fs_init LNone) h) /\
+    (c_fail_at cfg = None -> length (fk_run cfg (fs_init LNone) h) = length h).
